@@ -5,6 +5,7 @@
 //
 //	tm.sgn d | tm.inv d | tm.mid x y | tm.median [..] | tm.ftm [..]
 //	ms.median [o,t,e,...] post=[o,t,e,...] | ms.ftm [o,t,e,...] post=[o,t,e,...]
+//	ms.rounds n round;round;...   (rounds.go: MeasureClockOffsets + FaultTolerantMidpoint on one slice)
 //
 // For the ms.* ops the post= token carries the slice the implementation left behind when
 // the op was generated (Go's unstable sort is not modelled; the model verifies that it is an
@@ -185,6 +186,8 @@ func exec(t []string) string {
 			e = 1
 		}
 		return fmt.Sprintf("ok %d %s %d %s", int64(m.Offset), nsOfTime(m.Timestamp).String(), e, fmtRecs(fromMeas(ms)))
+	case t[0] == "ms.rounds" && len(t) == 3:
+		return roundsOp(t[1], t[2])
 	}
 	return "bad-op"
 }
@@ -966,6 +969,7 @@ func gen(c *lib.Ctx) {
 			measCase(c, rs, "ms.median")
 		}
 	}
+	genRounds(c, r.Fork("rounds"))
 	// random scalar midpoints
 	rx := r.Fork("mid")
 	for i := 0; i < c.Scale(3000, 100000); i++ {
